@@ -579,7 +579,7 @@ type EnumType struct {
 // NewEnumType returns an initialized EnumType.
 func NewEnumType() *EnumType {
 	return &EnumType{
-		last:     -1, // +1 will start at 0
+		last:     MinEnum - 1, // below every assignable value
 		min:      MinEnum,
 		max:      MaxEnum,
 		unique:   true,
@@ -630,6 +630,10 @@ func (e *EnumType) Set(name string, value int64) error {
 // SetNext sets the name in e using the next possible value that is greater than
 // all previous values.
 func (e *EnumType) SetNext(name string) error {
+	if len(e.ToInt) == 0 {
+		// The first member starts at 0.
+		return e.Set(name, 0)
+	}
 	if e.last == MaxEnum {
 		return fmt.Errorf("enum %q must specify a value since previous enum is the maximum value allowed", name)
 	}
